@@ -224,8 +224,10 @@ def run(R):
         R.check(okc, 'C16.R3', 'response:content-type=to_content_type(encoding)', site(cp), 'content-type := %s' % (show(cp.origin(ins[0][1]['args'][2]))[:100] if ins else None))
         rp = web.body(re.compile(r'service::ResponseFuture<F> as std::future::Future>::poll$'))
         R.saw(rp)
-        cr = rp.calls(name='coerce_response')
-        R.check(len(cr) == 1 and 'accept' in show(rp.origin(cr[0][1]['args'][1])), 'C16.R3', 'poll:coerce_response(res, accept)', site(rp), 'coerce_response encoding argument = %s' % (show(rp.origin(cr[0][1]['args'][1]))[:100] if cr else None))
+        # called in poll itself, or in the closure of `future.poll(cx).map_ok(|res| coerce_response(res, *accept))`
+        cr = [(m_, bb_, t_) for m_ in family(web, rp) for bb_, t_ in m_.calls(name='coerce_response')]
+        enc_ = show(resolve_env(web, cr[0][0], cr[0][0].origin(cr[0][2]['args'][1]), within=family(web, rp))) if cr else None
+        R.check(len(cr) == 1 and 'accept' in enc_, 'C16.R3', 'poll:coerce_response(res, accept)', site(rp), 'coerce_response encoding argument = %s' % (enc_[:100] if enc_ else None))
         for nm, dirn in (('request', 'Decode'), ('response', 'Encode')):
             fb = web.body('call::GrpcWebCall::<B>::' + nm)
             bb, t = fb.call1(pat='GrpcWebCall::<B>::new')
